@@ -30,7 +30,7 @@ theorem step_to_frLoop {s s' : State} {e : Event} (hs : step s e = .ok s') (a : 
     have hcs := ‹(State.notes _ _).children = _ :: _›
     cases h
     left
-    simp only [freeLoopStart_notes]
+    simp only [freeLoopStart_f_children]
     rw [hcs]; simp
     done))
   -- the loop moves to the saved next pointer
@@ -51,40 +51,36 @@ theorem step_to_chChild {s s' : State} {e : Event} (hs : step s e = .ok s') (a :
   all_goals (try subst ha)
   nrel_pc_cases h
   all_goals (try (cases h; simp at hp; done))
-  -- after the store of the flag: the loop starts with the first child
-  · have hcs := ‹(State.notes _ _).children = _ :: _›
+  -- the loop starts with the first child (after the store of the flag, after the last V, or for
+  -- another scan after WAIT_FOR_NO_CHILDREN)
+  all_goals (try (
+    have hcs := ‹(State.notes _ _).children = _ :: _›
     cases h
     simp only [CPos.child, Option.some.injEq] at hp
     subst hp
     left
-    simp only [childWakeNext_f_children]
+    simp only [childWakeNext_f_children, childScanStart_f_children]
     rw [hcs]; simp
+    done))
   -- the lock call on the selected child
-  · cases h
+  all_goals (try (
+    cases h
     right
-    exact ⟨.lockChild _, hp, by assumption, rfl⟩
+    exact ⟨.lockChild _, hp, by assumption, rfl⟩))
   -- the loop moves to the saved next pointer
-  · cases h
-    simp only [CPos.child, Option.some.injEq] at hp
-    subst hp
-    left
-    simpa using ‹_ ∈ (s.notes _).children›
-  -- after the last V: the loop starts with the first child
-  · have hcs := ‹(State.notes _ _).children = _ :: _›
+  all_goals (
     cases h
     simp only [CPos.child, Option.some.injEq] at hp
     subst hp
     left
-    simp only [childWakeNext_f_children]
-    rw [hcs]; simp
+    simpa using ‹_ ∈ (s.notes _).children›)
 
 /-- How the activation stack of `note_notify_child` evolves: it stays (as a list of notes), a
     child is pushed, the innermost activation returns, or `notify` enters the outermost one. -/
 theorem step_stack {s s' : State} {e : Event} (hs : step s e = .ok s') (a : Tid)
     (ha : e.actor = some a) {pos' : CPos} {stk' : List Frame} {top' : Top}
     (h : s'.pc a = .chd pos' stk' top') :
-    (∃ pos stk, s.pc a = .chd pos stk top' ∧ stk'.map Frame.note = stk.map Frame.note ∧
-      ∀ k, pos ≠ .waitRet k) ∨
+    (∃ pos stk, s.pc a = .chd pos stk top' ∧ stk'.map Frame.note = stk.map Frame.note) ∨
     (∃ c stk, s.pc a = .chd (.lockChildRet c) stk top' ∧
       stk'.map Frame.note = c :: stk.map Frame.note) ∨
     (∃ pos f, s.pc a = .chd pos (f :: stk') top') ∨
@@ -98,10 +94,9 @@ theorem step_stack {s s' : State} {e : Event} (hs : step s e = .ok s') (a : Tid)
     cases h
     left
     apply Exists.intro; apply Exists.intro
-    refine ⟨?_, ?_, ?_⟩
+    refine ⟨?_, ?_⟩
     · assumption
     · simp
-    · intro k hk; cases hk
     done))
   all_goals (try (
     cases h
